@@ -98,7 +98,9 @@ def render_xsd(model, open_content=None):
         oc = ('<xs:openContent mode="%s"><xs:any namespace="%s" processContents="lax"/></xs:openContent>'
               % open_content)
     decls = ''.join('<xs:element name="%s" type="xs:string"/>' % k for k in ('a', 'b', 'c', 'd', 'h'))
-    decls += '<xs:element name="m" type="xs:string" substitutionGroup="t:h"/>'
+    # 'm' substitutes the head 'h' through the abstract intermediate member 'mid'
+    decls += '<xs:element name="mid" type="xs:string" substitutionGroup="t:h" abstract="true"/>'
+    decls += '<xs:element name="m" type="xs:string" substitutionGroup="t:mid"/>'
     return ('<xs:schema xmlns:xs="http://www.w3.org/2001/XMLSchema" targetNamespace="%s" xmlns:t="%s" '
             'elementFormDefault="qualified">%s%s'
             '<xs:element name="r"><xs:complexType>%s%s</xs:complexType></xs:element></xs:schema>'
